@@ -472,6 +472,33 @@ def r7_isqrt(text, base_line=0):
     return pat.sub(rep, text), log
 
 
+def _panic_calls(text):
+    toks, match = _retok(text)
+    out = []
+    for i, tk in enumerate(toks):
+        if tk.kind == "id" and tk.text == "panic" and i + 2 < len(toks) and toks[i + 1].text == "!" and toks[i + 2].text == "(":
+            out.append((tk.start, toks[match[i + 2]].end, tk.line))
+    return out
+
+
+def r13_panic_allowed(text, base_line=0):
+    """R13: `panic!(..)` -> `reject()` (external_body, ensures false): rejecting the call is a permitted outcome"""
+    log, edits = [], []
+    for s0, e0, ln in _panic_calls(text):
+        edits.append((s0, e0, "reject()"))
+        log.append("R13 line %d: `%s` -> `reject()` (diverges; a permitted outcome for this unit)" % (base_line + ln - 1, " ".join(text[s0:e0].split())[:70]))
+    return _apply_edits(text, edits), log
+
+
+def r14_panic_forbidden(text, base_line=0):
+    """R14: `panic!(..)` -> `must_not_reject()` (requires false): the call must be accepted under the unit's precondition"""
+    log, edits = [], []
+    for s0, e0, ln in _panic_calls(text):
+        edits.append((s0, e0, "must_not_reject()"))
+        log.append("R14 line %d: `%s` -> `must_not_reject()` (must be unreachable)" % (base_line + ln - 1, " ".join(text[s0:e0].split())[:70]))
+    return _apply_edits(text, edits), log
+
+
 def r11_deref_ref_operand(text, base_line=0):
     """R11: explicit copies for `&f32` closure parameters are NOT inserted here; kept as placeholder"""
     return text, []
@@ -480,8 +507,9 @@ def r11_deref_ref_operand(text, base_line=0):
 REWRITES = {
     "R1": r1_compound_assign, "R2": r2_unary_minus, "R3": r3_scale_call, "R6": r6_for_with_continue,
     "R7": r7_isqrt, "R8": r8_step_by, "R9": r9_consts, "R10": r10_tail_continue,
+    "R13": r13_panic_allowed, "R14": r14_panic_forbidden,
 }
-ORDER = ["R10", "R8", "R6", "R9", "R7", "R3", "R1", "R2"]
+ORDER = ["R13", "R14", "R10", "R8", "R6", "R9", "R7", "R3", "R1", "R2"]
 
 
 def apply_rewrites(text, names, base_line):
